@@ -179,7 +179,7 @@ def _filter_part(ctx, name, codes, keyfn):
 def _c07_key(c, e):
     if c == 5:
         return "documented-neq-absent" if "!" in e["src"] else "documented-semantics"
-    return {2: "evaluator-differs", 6: "evaluator-error"}[c]
+    return {2: "evaluator-differs", 6: "evaluator-error", 8: "meaning-differs"}[c]
 
 
 def _c08_key(c, e):
@@ -193,7 +193,7 @@ def _c08_key(c, e):
 
 
 def part_filter_c07(ctx):
-    return _filter_part(ctx, "filter-semantics", {2, 5, 6}, _c07_key)
+    return _filter_part(ctx, "filter-semantics", {2, 5, 6, 8}, _c07_key)
 
 
 def part_filter_c08(ctx):
